@@ -29,16 +29,16 @@ type c21Fault struct {
 }
 
 type c21Case struct {
-	Exchange bool           `json:"exchange"`
+	Exchange bool             `json:"exchange"`
 	Script   lib.StreamScript `json:"script"`
-	Inputs   []int64        `json:"inputs"` // one value per exchange turn
-	Faults   []c21Fault     `json:"faults"` // per HTTP request, in order
-	Limit    int            `json:"limit"`
-	MaxDec   int64          `json:"max_decoded"`
+	Inputs   []int64          `json:"inputs"` // one value per exchange turn
+	Faults   []c21Fault       `json:"faults"` // per HTTP request, in order
+	Limit    int              `json:"limit"`
+	MaxDec   int64            `json:"max_decoded"`
 }
 
 var mustFail = map[string]bool{"err_before": true, "err_after": true, "status": true, "coding_unknown": true, "coding_lie": true,
-	"strip_cursor": true, "schema_drift": true, "trailing": true, "oversize": true}
+	"strip_cursor": true, "schema_drift": true, "trailing": true, "oversize": true, "cut": true, "cut_boundary": true}
 
 func genC21(t *rapid.T) c21Case {
 	c := c21Case{Exchange: rapid.Bool().Draw(t, "exchange"), Limit: rapid.IntRange(1, 3).Draw(t, "limit"), MaxDec: 1 << 20}
@@ -57,7 +57,7 @@ func genC21(t *rapid.T) c21Case {
 		c.Inputs = append(c.Inputs, int64(rapid.IntRange(-5, 5).Draw(t, "in")))
 	}
 	c.Script = s
-	kinds := []string{"pass", "pass", "pass", "pass", "pass", "err_before", "err_after", "truncate", "flip", "status", "coding_unknown", "coding_lie", "strip_cursor", "schema_drift", "trailing", "oversize"}
+	kinds := []string{"pass", "pass", "pass", "pass", "pass", "err_before", "err_after", "truncate", "cut", "cut_boundary", "cut_boundary", "flip", "status", "coding_unknown", "coding_lie", "strip_cursor", "schema_drift", "trailing", "oversize"}
 	for i := 0; i < n+2; i++ {
 		f := c21Fault{Kind: kinds[rapid.IntRange(0, len(kinds)-1).Draw(t, "fault")]}
 		f.N = rapid.IntRange(0, 1<<16).Draw(t, "fn")
@@ -66,6 +66,11 @@ func genC21(t *rapid.T) c21Case {
 	}
 	return c
 }
+
+// errReader fails every Read with its error.
+type errReader struct{ err error }
+
+func (e errReader) Read([]byte) (int, error) { return 0, e.err }
 
 type recReq struct {
 	Path   string
@@ -77,6 +82,14 @@ type faultTransport struct {
 	faults []c21Fault
 	reqs   []recReq
 	maxDec int64
+}
+
+// downgrade records that fault i could not be applied to the response it met
+// (nothing to cut): the request counts as unfaulted.
+func (ft *faultTransport) downgrade(i int) {
+	if i < len(ft.faults) {
+		ft.faults[i].Kind = "pass"
+	}
 }
 
 func (ft *faultTransport) RoundTrip(r *http.Request) (*http.Response, error) {
@@ -146,10 +159,46 @@ func (ft *faultTransport) RoundTrip(r *http.Request) (*http.Response, error) {
 		}
 		return out.Bytes()
 	}
+	// cutBody delivers only the first n bytes of b although all of b was
+	// declared: the connection drops mid-body
+	cutBody := func(b []byte, n int, keepEnc bool) {
+		setBody(b, keepEnc)
+		res.Body = io.NopCloser(io.MultiReader(bytes.NewReader(b[:n]), errReader{io.ErrUnexpectedEOF}))
+	}
 	switch f.Kind {
 	case "truncate":
 		if len(raw) > 0 {
 			setBody(raw[:f.N%len(raw)], true)
+		}
+	case "cut":
+		if len(raw) > 1 {
+			cutBody(raw, f.N%(len(raw)-1), true)
+		} else {
+			ft.downgrade(i)
+			setBody(raw, true)
+		}
+	case "cut_boundary":
+		// an identity-coded body dropped exactly between two IPC messages of
+		// its last stream: every byte that did arrive is well-formed
+		ss, serr := lib.SplitStreams(decoded)
+		var cuts []int
+		var rebuilt []byte
+		if serr == nil && len(ss) > 0 {
+			last := ss[len(ss)-1]
+			var recs []arrow.RecordBatch
+			for _, b := range last.Batches {
+				recs = append(recs, lib.WithMeta(b.Rec, b.Meta.Keys(), b.Meta.Values()))
+			}
+			rebuilt = append(append([]byte{}, decoded[:int(last.Start)]...), lib.EncodeStream(last.Schema, recs...)...)
+			for k := 0; k < len(recs); k++ {
+				cuts = append(cuts, int(last.Start)+len(lib.EncodeStream(last.Schema, recs[:k]...))-8)
+			}
+		}
+		if len(cuts) == 0 {
+			ft.downgrade(i)
+			setBody(raw, true)
+		} else {
+			cutBody(rebuilt, cuts[f.N%len(cuts)], false)
 		}
 	case "flip":
 		if len(raw) > 0 {
@@ -202,6 +251,9 @@ func (ft *faultTransport) RoundTrip(r *http.Request) (*http.Response, error) {
 		setBody(raw, true)
 	}
 	_ = custom
+	if os.Getenv("C21DBG") != "" {
+		fmt.Fprintf(os.Stderr, "DBG req#%d %s fault=%s status=%d raw=%d decoded=%d CL=%d enc=%q\n", i, r.URL.Path, f.Kind, res.StatusCode, len(raw), len(decoded), res.ContentLength, enc)
+	}
 	return res, nil
 }
 
@@ -454,11 +506,11 @@ func runC21(c c21Case) (out lib.Outcome) {
 var propC21 = lib.Prop[c21Case]{
 	ID:    "C21",
 	Level: "fault_enumeration",
-	Rule: "producer and exchange histories of 1-8 turns (0-3 rows per batch, per-emit metadata, server-side turn errors) driven through vgirpc.HttpClient against a real HttpServer behind a generated RoundTripper fault script: per request one of pass, error before send, error after the server handled it, truncate at k, flip a byte, status 4xx/5xx/3xx/1xx, unknown coding, lying coding, cursor stripped, schema drift, trailing bytes, body inflated past the client's cap. " +
+	Rule: "producer and exchange histories of 1-8 turns (0-3 rows per batch, per-emit metadata, server-side turn errors) driven through vgirpc.HttpClient against a real HttpServer behind a generated RoundTripper fault script: per request one of pass, error before send, error after the server handled it, truncate at k, connection dropped mid-body at k or exactly between two IPC messages of an identity-coded body, flip a byte, status 4xx/5xx/3xx/1xx, unknown coding, lying coding, cursor stripped, schema drift, trailing bytes, body inflated past the client's cap. " +
 		"Oracle: un-faulted responses give exactly the reference batches (my own client against an identical server) with tokens removed and user metadata kept; server exceptions surface as *RpcError of the server's type; must-fail faults are errors; after any failed exchange turn every later turn errors without a request; no cursor value occurs in two /exchange requests. Non-trivial: at least one fault was exercised.",
 	Gen:          genC21,
 	Run:          runC21,
-	Essential:    []string{"kind:exchange", "kind:producer", "zero-row-batch:producer", "zero-row-batch:exchange", "fault-at-turn>=2", "server-error", "fault:strip_cursor", "fault:err_after", "fault:oversize"},
+	Essential:    []string{"kind:exchange", "kind:producer", "zero-row-batch:producer", "zero-row-batch:exchange", "fault-at-turn>=2", "server-error", "fault:strip_cursor", "fault:err_after", "fault:oversize", "fault:cut_boundary"},
 	EssentialMin: 300,
 	Assumptions:  []string{"a corrupted-but-parseable body (truncate/flip) may legitimately succeed: the client has no checksum", "the no-replay clause is asserted for exchange streams, as the statement words it"},
 }
